@@ -263,4 +263,70 @@ theorem fread_inv (cp : Comp S) (hp : cp.FlushProgress) (body : Bytes) (fs : Nat
         simp only [List.length_nil, Nat.add_zero] at hcons
         omega
 
+/-! ### a concrete compressor meeting both contracts (non-vacuity of C54_stream)
+
+  write emits `1 x` for every byte x, flush emits `0`, close emits `2`. -/
+
+def toy : Comp Unit :=
+  { init := (), write := fun _ b => ((), b.flatMap fun x => [1, x]),
+    flush := fun _ => ((), [0]), close := fun _ => ((), [2]) }
+
+def toyDec : Bytes → Option Bytes
+  | [] => none
+  | a :: r =>
+    if a = 0 then toyDec r
+    else if a = 2 then (if r.isEmpty then some [] else none)
+    else if a = 1 then
+      (match r with
+       | [] => none
+       | b :: r' => (toyDec r').map (b :: ·))
+    else none
+
+theorem toyDec_write (b E : Bytes) :
+    toyDec ((b.flatMap fun x => [1, x]) ++ E) = (toyDec E).map (b ++ ·) := by
+  induction b with
+  | nil => simp
+  | cons x b' ih =>
+    simp only [List.flatMap_cons, List.cons_append, List.nil_append, List.append_assoc]
+    rw [toyDec]
+    simp only [show ¬ ((1 : UInt8) = 0) by decide, show ¬ ((1 : UInt8) = 2) by decide, if_false, if_true]
+    rw [ih]
+    cases toyDec E <;> simp
+
+theorem toyDec_zero (E : Bytes) : toyDec (0 :: E) = toyDec E := by
+  cases E <;> simp [toyDec]
+
+theorem toy_correct : toy.Correct toyDec := by
+  intro pre
+  unfold Comp.emit
+  induction pre with
+  | nil =>
+    intro _
+    simp [Comp.emitFrom, Comp.step, toy, toyDec, written]
+  | cons o r ih =>
+    intro hc
+    have hr : Op.c ∉ r := fun h => hc (List.mem_cons_of_mem _ h)
+    have ih' := ih hr
+    cases o with
+    | w b =>
+      simp only [List.cons_append, Comp.emitFrom, Comp.step, written]
+      show toyDec ((b.flatMap fun x => [1, x]) ++ toy.emitFrom () (r ++ [Op.c])) = _
+      rw [toyDec_write]
+      have : toy.emitFrom toy.init (r ++ [Op.c]) = toy.emitFrom () (r ++ [Op.c]) := rfl
+      rw [← this, ih']
+      simp
+    | f =>
+      simp only [List.cons_append, Comp.emitFrom, Comp.step, written]
+      show toyDec (0 :: toy.emitFrom () (r ++ [Op.c])) = _
+      rw [toyDec_zero]
+      exact ih'
+    | c => exact absurd (List.mem_cons_self) hc
+
+theorem toy_flushProgress : toy.FlushProgress := by
+  intro pre ws _
+  rw [emit_append, emit_append]
+  simp only [List.length_append, Comp.emitFrom, Comp.step, toy]
+  simp
+  omega
+
 end BfeVerif.C54
